@@ -249,3 +249,48 @@ func vh_C18_L5_failed_parked_write_has_no_side_effects() {
 func vh_C18_L5_failed_parked_write_keeps_concurrent_acks() {
 	vh_C15_L7_failed_blocking_write_keeps_concurrent_release()
 }
+
+// C18.L6: every writer parked behind the blocking-write gate is released when the
+// association leaves ESTABLISHED, also when the gate had just been opened for one of them.
+// A message is waiting (gate closed, writers park on the hand-over channel); optionally the
+// writer drains the queue (one token is posted); then the peer's SHUTDOWN arrives, Shutdown
+// is called, or the association is closed: the channel the parked writers wait on is closed,
+// so each of them wakes, sees the state and fails instead of waiting for ever.
+func vh_C18_L6_every_parked_writer_is_released_at_shutdown() {
+	a, _ := vNewAssocOpts(vAssocOpts{blockWrite: true})
+	s, err := a.OpenStream(1, PayloadTypeWebRTCBinary)
+	vassert(err == nil, "open stream")
+	_, werr := s.WriteSCTP(nondetBytes(2), PayloadTypeWebRTCBinary)
+	vassert(werr == nil && a.writePending, "a message is waiting, the gate is closed")
+	parkedOn := a.writeNotify
+	a.cwnd, a.rwnd = 1<<20, 1<<20
+	if vPick(2) == 1 {
+		vassert(len(vWriterPass(a)) == 1 && !a.writePending, "the queue drains, the gate opens for one writer")
+	}
+	switch vPick(3) {
+	case 0:
+		vassert(vDeliver(a, &chunkShutdown{cumulativeTSNAck: a.cumulativeTSNAckPoint}) == nil, "SHUTDOWN ok")
+	case 1:
+		_ = a.Shutdown(vNewClosedCtx())
+	case 2:
+		_ = a.close()
+		a.lock.Lock()
+		a.unblockPendingWrites() // what the read loop does on its way out
+		a.lock.Unlock()
+	}
+	vassert(a.getState() != established, "the association has left ESTABLISHED")
+	released := false
+	for i := 0; i < 2; i++ { // at most one token, then the closed channel
+		select {
+		case _, ok := <-parkedOn:
+			if !ok {
+				released = true
+			}
+		default:
+		}
+	}
+	vassert(released, "every writer parked behind the gate is woken to be rejected (the channel they wait on is closed)")
+	_, w2 := s.WriteSCTP(nondetBytes(1), PayloadTypeWebRTCBinary)
+	vassert(w2 != nil, "and a write now fails at once")
+	vcover("end")
+}
